@@ -206,15 +206,16 @@ def nearMultipleB (step tol x : Rat) : Bool :=
 
 /-- observed ticks `l` for domain `[d0,d1]`, count `m`: increasing multiples of the model's step, inside the domain,
 none missing except possibly one at either end (float end effects), count within `[⌊0.57 m⌋, 1.43 m + 1]` -/
-def ticksOKB (d0 d1 m : Rat) (l : List Rat) : Bool :=
+def ticksOKB (ftol : Rat) (d0 d1 m : Rat) (l : List Rat) : Bool :=
   let e := extent d0 d1
   let step := (tickRange d0 d1 m).2.2
   if step ≤ 0 then l.isEmpty else
-  let tol := step / 1000000
-  let lo := ((e.1 / step - 1/1000000000).ceil : Int)     -- first multiple certainly inside
-  let hi := ((e.2 / step + 1/1000000000).floor : Int)
-  let lo' := ((e.1 / step + 1/1000000000).ceil : Int)    -- multiples that may be lost to float effects are between
-  let hi' := ((e.2 / step - 1/1000000000).floor : Int)
+  let tol := step / 1000000 + ftol
+  let q := 1/1000000000 + ftol / step
+  let lo := ((e.1 / step - q).ceil : Int)     -- first multiple certainly inside
+  let hi := ((e.2 / step + q).floor : Int)
+  let lo' := ((e.1 / step + q).ceil : Int)    -- multiples that may be lost to float effects are between
+  let hi' := ((e.2 / step - q).floor : Int)
   let n : Int := l.length
   increasingB l && l.all (nearMultipleB step tol) &&
     l.all (fun x => decide (e.1 - tol ≤ x) && decide (x ≤ e.2 + tol)) &&
@@ -251,11 +252,11 @@ def textsOKB (step : Rat) (l : List Rat) (texts : List String) : Bool :=
 
 /-- observed `nice` result `(n0, n1)` for `[d0, d1]`: no end moves inward (beyond `1e-9` step), orientation kept,
 each end moves out by less than two tick steps of the *resulting* domain, and lands on a multiple of a tenth of that step -/
-def niceOKB (d0 d1 m n0 n1 : Rat) : Bool :=
+def niceOKB (ftol : Rat) (d0 d1 m n0 n1 : Rat) : Bool :=
   let step := (tickRange n0 n1 m).2.2
   if d0 = d1 then n0 == d0 && n1 == d1 else
   if step ≤ 0 then false else
-  let tol := step / 1000000000
+  let tol := step / 1000000000 + ftol
   let lo := ratMin d0 d1
   let hi := ratMax d0 d1
   let nlo := ratMin n0 n1
